@@ -5,7 +5,7 @@
    (shape, initializer); the invariants compare the implementation model (NewInit) with the
    pointwise ideal (NewInitIdeal).                                                          *)
 EXTENDS NewInit, TLC
-CONSTANTS Variant, Depth, ShapeNames
+CONSTANTS Variant, Depth, KMax, Pool, ShapeNames
 VARIABLES shape, init
 vars == <<shape, init>>
 
@@ -47,7 +47,7 @@ ASSUME PrintT(<<"SHAPES", Shapes>>)
 Mk(k, b, items, n) == [k |-> k, b |-> b, items |-> items, n |-> n]
 None == Mk("none", <<>>, <<>>, 0)
 LE(x, size) == [k \in 1..size |-> (x \div Pow256(k - 1)) % 256]
-Leafs(T)   == {Mk("leaf", LE(x, T.size), <<>>, 0) : x \in {3, 772}}
+Leafs(T)   == {Mk("leaf", LE(x, T.size), <<>>, 0) : x \in Pool}
 BitsInits(bs) == {Mk("bits", [i \in 1..bs |-> 1], <<>>, 0), Mk("bits", [i \in 1..bs |-> i % 2], <<>>, 0)}
 RECURSIVE SeqProd(_)
 SeqProd(sets) == IF sets = <<>> THEN {<<>>} ELSE {<<h>> \o t : h \in Head(sets), t \in SeqProd(Tail(sets))}
@@ -64,7 +64,7 @@ FieldInits(f, d) == IF f.bs >= 0 THEN BitsInits(f.bs) ELSE Inits(f.t, d)
 Inits(T, d) ==
   CASE T.k = "prim" -> Leafs(T)
     [] T.k = "arr" ->
-         LET kmax == IF T.len < 0 THEN 2 ELSE Min2(T.len, 2)
+         LET kmax == IF T.len < 0 THEN KMax ELSE Min2(T.len, KMax)
              seqs == IF d = 0 THEN {Mk("seq", <<>>, <<>>, 0)}
                      ELSE {Mk("seq", <<>>, f, 0) : f \in UNION {[1..k -> Inits(T.item, d - 1)] : k \in 0..kmax}}
              strs == IF T.item.k = "prim" /\ T.item.chr = 1
